@@ -1,4 +1,5 @@
 import FH.Walk
+import FH.Dwarf
 /-!
 # C10 — Progress: caller-frame steps advance, no state repeats, walks terminate
 -/
@@ -31,6 +32,55 @@ theorem C10_a64_rule_step {rule : RuleA64} {regs regs' : RegsA64} {mem : Mem} {r
     (hr : rule.WF) (h : execA64 rule false regs mem = .ret (.frame ra) regs') :
     regs.sp < regs'.sp :=
   (execA64_frame hr h).caller_advance rfl
+
+/-- The uncacheable DWARF path, x86-64, caller frame: a successful step strictly increases sp
+(the `cfa <= sp` guard; since 23817bc also for `cfa = sp`) and leaves `ip` at the return
+address - for every row, whatever its CFA and register rules are (expressions included). -/
+theorem C10_x64_generic_caller_step {row : Row} {regs regs' : RegsX64} {mem : Mem} {ra : Nat}
+    (h : genericX64 row false regs mem = .ok ra regs') : regs.sp < regs'.sp ∧ regs'.ip = ra := by
+  unfold genericX64 at h
+  split at h
+  · cases h
+  · rename_i cfa _
+    simp only [] at h
+    split at h
+    · cases h
+    · split at h
+      · cases h
+      · split at h
+        · cases h
+        · rename_i hle
+          injection h with h1 h2
+          subst h2
+          simp only [Bool.not_false, true_and, Nat.not_le] at hle
+          exact ⟨by simpa [RegsX64.sp] using hle, h1.symm ▸ rfl⟩
+
+/-- The uncacheable DWARF path, aarch64, caller frame: a step either ends the walk (null return
+address, registers untouched: the row declares the return address undefined) or strictly
+increases sp. -/
+theorem C10_a64_generic_caller_step {row : Row} {regs regs' : RegsA64} {mem : Mem} {ra : Nat}
+    (h : genericA64 row false regs mem = .ok ra regs') :
+    (ra = 0 ∧ regs' = regs) ∨ regs.sp < regs'.sp := by
+  unfold genericA64 at h
+  split at h
+  · injection h with h1 h2
+    exact Or.inl ⟨h1.symm, h2.symm⟩
+  · split at h
+    · cases h
+    · rename_i cfa _
+      simp only [Bool.not_false, if_true] at h
+      split at h
+      · cases h
+      · rename_i hle
+        split at h
+        · cases h
+        · split at h
+          · cases h
+          · injection h with h1 h2
+            subst h2
+            right
+            simp only [RegsA64.setLr]
+            omega
 
 /-- Walk level, x86-64: along any sequence of successful caller-frame rule steps (any rules,
 any registers, any memory — including self-referential frame pointer chains) no
